@@ -97,6 +97,7 @@ type proxyCfg struct {
 	ProviderType          string   // "" = oidc; "keycloak-oidc"; "entra-id"
 	EntraAllowedTenants   []string
 	IdPAdvertisedPKCE     []string      // code_challenge_methods_supported of the discovery document (nil = S256 and plain)
+	HealthPaths           [2]string     // ping path, ready path (empty: left to the deployment variation)
 	RedisRealTime         bool          // miniredis TTLs run down in real time (they are otherwise frozen): locks and entries really expire
 	RedisReadTimeout      time.Duration // read_timeout of the Redis client (0 = the client's default of 3 s)
 	PreferEmailToUser     bool          // --prefer-email-to-user (legacy): htpasswd sessions get their user name as e-mail address
@@ -359,6 +360,14 @@ func newEnv(c *suiteCtx, cfg proxyCfg) (*testEnv, error) {
 			if kind != "always" { // "always": the command keeps failing for the whole request (e.g. a read-only replica refusing writes)
 				delete(e.redisFault, strings.ToUpper(cmd))
 			}
+			if strings.HasPrefix(kind, "drop") {
+				// the connection is closed without a reply (a TCP proxy whose backend is gone, a fail-over): "drop" once, "drop-always"
+				if kind == "drop-always" {
+					e.redisFault[strings.ToUpper(cmd)] = kind
+				}
+				p.Close()
+				return true
+			}
 			if kind == "hang" {
 				// the server stalls on this command: nothing is executed, the client gives up after its read timeout
 				wait := 3500 * time.Millisecond
@@ -403,6 +412,9 @@ func newEnv(c *suiteCtx, cfg proxyCfg) (*testEnv, error) {
 	o.Session.Cookie.Minimal = cfg.CookieMinimal
 	// deployment options the properties do not mention take non-default values in most environments
 	e.varyDeployment(o)
+	if cfg.HealthPaths[0] != "" {
+		o.PingPath, o.ReadyPath = cfg.HealthPaths[0], cfg.HealthPaths[1]
+	}
 	// the options under test are the ones the real configuration loader produces for these settings
 	o = e.viaConfigPath(o)
 	if err := validation.Validate(o); err != nil {
@@ -581,7 +593,16 @@ func (e *testEnv) varyDeployment(o *options.Options) {
 		o.ProxyPrefix = "/_o2p/x"
 	}
 	if pick(2) == 1 {
-		o.PingPath, o.ReadyPath = "/healthz", "/readyz"
+		// (also: one health path BELOW the other — each endpoint answers for exactly its own path)
+		switch hash64(fmt.Sprintf("health|%d|%s|%d", e.c.seed, e.c.name, deploySeq.Load())) % 3 {
+		case 0:
+			o.PingPath, o.ReadyPath = "/healthz", "/readyz"
+		case 1:
+			o.PingPath, o.ReadyPath = "/actuator/health", "/actuator/health/readiness"
+		case 2:
+			o.PingPath, o.ReadyPath = "/status/live", "/status"
+		}
+		e.c.count("deploy:health:" + o.PingPath + "+" + o.ReadyPath)
 	}
 	o.GCPHealthChecks = pick(3) == 1
 	o.Templates.Debug = o.Templates.Debug || pick(3) == 1
